@@ -32,7 +32,7 @@ pub static DEF: ScenDef = ScenDef {
 fn budget(_prop: &str, tier: Tier) -> u64 {
     match tier {
         Tier::Quick => 500_000,
-        Tier::Thorough => 12_000_000,
+        Tier::Thorough => 8_000_000,
     }
 }
 
@@ -176,17 +176,20 @@ impl Op {
     }
 }
 
-fn gen_cfg(_prop: &str, _tier: Tier, run_seed: u64) -> Value {
+fn gen_cfg(_prop: &str, tier: Tier, run_seed: u64) -> Value {
     let mut r = Rng::sub(run_seed, "cfg");
     // small archives are where off-by-one errors live; a minority of runs works on larger ones
-    let max_size = match r.weighted(&[82, 14, 4]) {
+    // (the thorough tier widens the bounds: larger archives, longer histories)
+    let deep = tier == Tier::Thorough;
+    let max_size = match r.weighted(if deep { &[70, 18, 12] } else { &[82, 14, 4] }) {
         0 => 96,
         1 => 512,
-        _ => 2048,
+        _ => if deep { 4096 } else { 2048 },
     };
+    let ops_hi = if deep && r.chance(1, 4) { 200 } else { 80 };
     // swarm: every run scales the eleven operation-class weights by its own factors (0 = class absent)
     let swarm: Vec<u32> = (0..11).map(|_| *r.pick(&[0u32, 1, 1, 1, 2, 4])).collect();
-    json!({ "big": r.chance(1, 2), "max_ops": r.range(10, 80), "max_size": max_size, "swarm": swarm })
+    json!({ "big": r.chance(1, 2), "max_ops": r.range(10, ops_hi), "max_size": max_size, "swarm": swarm })
 }
 
 fn shrink_cfg(_cfg: &Value) -> Vec<Value> {
